@@ -192,8 +192,8 @@ impl Table for Madt {
         let mut v = vec![];
         let had_imsic = hist.iter().any(|o| o.k == K_IMSIC_ONCE);
         for k in 0..12u8 {
-            if k == K_IMSIC_ONCE && had_imsic {
-                continue; // documented refusal: a second add_imsic panics
+            if k == K_IMSIC_ONCE && had_imsic && (level == 0 || hist.iter().filter(|o| o.k == K_IMSIC_ONCE).count() >= 2) {
+                continue; // documented refusal: a second add_imsic panics; it is offered once more on purpose
             }
             if level == 0 {
                 let shape = match k {
@@ -232,8 +232,16 @@ impl Table for Madt {
         let lic = if c.p == 0 { LocalInterruptController::Riscv } else { LocalInterruptController::Address(c.fill.u32(0)) };
         let mut t = MADT::new(c.oem_id(), c.oem_table_id(), c.oem_rev(), lic);
         obs(0, &t, &[]);
+        let mut had_imsic = false;
         for (i, op) in ops.iter().enumerate() {
-            apply(&mut t, op);
+            if op.k == K_IMSIC_ONCE && had_imsic {
+                if crate::util::catch(|| apply(&mut t, op)).is_err() {
+                    crate::seq::note_refused(i);
+                }
+            } else {
+                apply(&mut t, op);
+            }
+            had_imsic |= op.k == K_IMSIC_ONCE;
             obs(i + 1, &t, &[]);
         }
     }
